@@ -148,7 +148,11 @@ def run_one(ctx, hmac, length, taglen, hoff=0, safe_data=True, res=None, sabotag
                     return True
                 if 'compress_' not in term.sexpr():
                     return False
-                return hmac and any(is_true(simplify(term == fb)) for fb in inner)
+                if not hmac:
+                    return False
+                if term.size() != 8:
+                    return any(dirty(simplify(Extract(8 * k + 7, 8 * k, term))) for k in range(term.size() // 8))
+                return any(is_true(simplify(term == fb)) for fb in inner)
             leaks = []
             for i in range(32):
                 if dirty(f.v[i]):
